@@ -629,7 +629,7 @@ def owner_rule(c, cores, elem):
 def compute_rule(c):
     ck, fb, km, cm = c.ck, c.fb, c.km, c.cm
     # compute functions
-    ck.rule("C01.compute", "compute_*_bottom_up_incidences start with clear+resize of their cache and run only over the deleted-skipping ranges (vertices()/edges()/faces()/cells() and circulator ranges): every loop is a range-for over a range returned by a TopologyKernel accessor, never an index loop")
+    ck.rule("C01.compute", "compute_*_bottom_up_incidences start with clear+resize of their cache and run only over the deleted-skipping ranges (vertices()/edges()/faces()/cells() and circulator ranges): every loop is a range-for over a range returned by a TopologyKernel accessor, or an index loop all of whose effects lie under a not-deleted fact")
     for cache, k in cm.kinds.items():
         f = fb.fns[k["compute"]]
         effs = c.eff.get(f.id, [])
@@ -648,6 +648,16 @@ def compute_rule(c):
                 desc = "range-for over " + estr(r)[:50]
                 if isinstance(r, dict) and r.get("k") == "call" and r.get("cc", "") == TK and r.get("t", "").startswith("std::pair<"):
                     ok = True
+            if not ok:
+                # an index loop is as good when every statement of its body lies under a not-deleted fact
+                from .canon import Canon as _Canon
+                _cn = _Canon(f)
+                inner = {b_ for h2, b2, k2 in f.loops() if h2 != hdr and h2 in body for b_ in b2}
+                eff_blocks = {b_ for b_, i_, x_ in f.tops() if b_ in body and b_ != hdr and b_ not in inner and (as_assign(x_) or x_.get("k") == "call")}
+                guarded = bool(eff_blocks) and all(any(p_ is False and ("is_deleted(" in s_ or "_deleted_[" in s_) for s_, p_, c_ in _cn.facts(b_)) for b_ in eff_blocks)
+                if guarded:
+                    ok = True
+                    desc += " with every effect under !is_deleted"
             (ck.ok if ok else lambda r_, w, t_: ck.violate(r_, w, t_, "C01.compute:%s:loop" % f.pq))("C01.compute", f.loc(t) if t else f.where, "%s: %s is a deleted-skipping range of the kernel" % (f.name, desc))
         ck.count("compute_loops", nloops)
 
@@ -1030,6 +1040,15 @@ def relabel_loops(ck, f, sets, loops):
             if q_ and p_ is (q_[0] == "==") and ((q_[1] == l_ and is_id(q_[2])) or (q_[2] == l_ and is_id(q_[1]))):
                 return True
         return False
+    # the cache-guided branch reaches the referring entities through the bottom-up lists, from which deferred-deleted entities
+    # have been unlinked: their stored definitions keep the old handle, while the linear-scan sibling rewrites them too (F59)
+    if f.name in ("swap_vertex_indices", "swap_edge_indices", "swap_face_indices") and ck.pid in ("C17", "C12"):
+        # only the two statements that speak about the definitions of deleted entities (C17: "exchanged everywhere ... one or
+        # both deleted"; C12: "the same mesh - definitions ... - as with all of them enabled")
+        g_ = [r_ for r_ in rewrites(f.reach()) if idtest(r_[0]) and any(a[0].startswith("has_") and a[1] is True for a in atoms_at(f, r_[0]))]
+        covers = any(p_ is True and ("is_deleted(" in s_ or "_deleted_[" in s_) for r_ in rewrites(f.reach()) for s_, p_, c_ in cn.facts(r_[0]))
+        if g_:
+            (ck.ok if covers else lambda r_, w_, t_: ck.violate(r_, w_, t_, "C17.deleted:%s" % f.name))("C17.relabel", f.where, "%s: the cache-guided relabel also rewrites the definitions of deferred-deleted entities that refer to the swapped handles (they are no longer linked in the caches the branch walks; the linear-scan branch rewrites them)" % f.name)
     # pairwise exchange `if (e == h1) e = h2; else if (e == h2) e = h1;` has to be ONE decision per entry: two passes - first
     # h1 -> h2 over the definition of h1, then h2 -> h1 over that of h2 - rewrite an entry twice when both definitions
     # list it (a deferred-deleted cell and the cell added on its halffaces)
